@@ -34,7 +34,7 @@ from harness.core import MachineryError
 from harness.tlc import run_tlc, cases, validate_traces
 
 META = dict(
-    spec='Positions.tla, PositionsText.tla, PositionsHist.tla, Trace_Positions.tla',
+    spec='Positions.tla, PositionsText.tla, PositionsHist.tla, Trace_Positions.tla, Trace_SigFaithful.tla',
     text='TLC checks exhaustively, for every buffer of <=2 statement templates (38 parse-tree templates: '
          'assignments, def/class with decorators, imports, for/with/except, walrus, global/nonlocal, del, lambda, '
          'comprehensions, call/attribute chains, f-string) x identifier rotation over {a, bb, e-acute, CJK, __a} '
@@ -658,6 +658,89 @@ def hist_selftest_traces(traces, metas):
     return out
 
 
+# ---------------------------------------------------------------- Trace_SigFaithful.tla: signatures along a buffer history
+SIG_TAIL = 'y = 0\nx = foo('
+SIG_VERSIONS = [
+    'def foo(a, b):\n    return a\n\n\n',                 # the callee at the top
+    '\n\ndef foo(a):\n    return a\n',                    # moved down
+    'if 1:\n    def foo(*a, **k):\n        return a\n\n',  # re-indented
+    'def bar(x): return x\nfoo = bar\n\n\n',               # another callable under the name
+    'class foo:\n    def __init__(self, q): pass\n\n\n',   # a class now
+    'zzz = 1\n\n\n\n',                                       # gone
+]
+
+
+def sig_history(order):
+    """One process, one buffer path: Script(version).get_signatures() for every version of `order` in turn."""
+    import jedi
+    import tempfile
+    base = os.environ.get('VERIF_CACHE_BASE') or tempfile.gettempdir()
+    path = os.path.join(base, 'c17sig_%d' % os.getpid(), 'sigbuf.py')
+    events = []
+    for vi in order:
+        text = SIG_VERSIONS[vi] + SIG_TAIL
+        lines = text.split('\n')
+        s = jedi.Script(text, path=path, environment=jutil.env(), project=jutil.project())
+        r = jutil.safe(lambda: s.get_signatures(len(lines), len(lines[-1])))
+        if r[0] == 'exc':
+            events.append({'blocked': r[2]})
+            continue
+        keep = text.splitlines(keepends=True)
+        for sig in r[1]:
+            try:
+                for n in [sig] + list(sig.params):
+                    if n.line is None or n.module_path is None or os.path.basename(str(n.module_path)) != 'sigbuf.py':
+                        continue
+                    events.append({'name': jutil.enc(n.name), 'line': n.line, 'col': n.column,
+                                   'linecode': jutil.enc(n.get_line_code()), 'text': [jutil.enc(x) for x in keep],
+                                   'version': vi})
+            except Exception as e:  # noqa  -- a reported Signature whose documented attributes raise
+                events.append({'broken': type(e).__name__, 'version': vi})
+    return events
+
+
+def signature_histories(ctx):
+    import itertools
+    n = len(SIG_VERSIONS)
+    orders = [list(p) for p in itertools.permutations(range(n), 2)] + [[a, b, a] for a in range(n) for b in range(n) if a != b][::3]
+    if not ctx.quick:
+        orders += [list(p) for p in itertools.permutations(range(n), 3)]
+    obs = jutil.pmap(sig_history, orders, chunksize=4)
+    jutil.check_worker_errors(obs)
+    traces, owners = [], []
+    blocked = 0
+    for order, evs in zip(orders, obs):
+        for e in evs:
+            if 'broken' in e:
+                ctx.violation('sig-history:attribute-raises:%s' % e['broken'], 'a Signature reported after an edit of the buffer '
+                              'raises %s when its params / position / line code are read' % e['broken'],
+                              {'order': order, 'versions': [SIG_VERSIONS[i] + SIG_TAIL for i in order]})
+        t = [e for e in evs if 'blocked' not in e and 'broken' not in e]
+        blocked += sum(1 for e in evs if 'blocked' in e)
+        if t:
+            traces.append([{k: e[k] for k in ('name', 'line', 'col', 'linecode', 'text')} for e in t])
+            owners.append((order, t))
+    ctx.coverage['signature_histories'] = len(orders)
+    ctx.coverage['signature_history_names'] = sum(len(t) for t in traces)
+    ctx.coverage['signature_history_blocked'] = blocked
+    if sum(len(t) for t in traces) < 50:
+        raise MachineryError('vacuity: only %d signature names observed' % sum(len(t) for t in traces))
+    vs = validate_traces('Trace_SigFaithful', 'Trace_SigFaithful.cfg', traces, ctx, 'Trace_SigFaithful')
+    for v, (order, t) in zip(vs, owners):
+        if not v['accepted']:
+            e = t[(v['at'] or 1) - 1]
+            ctx.violation('sig-history:%s' % ','.join(v['why'] or ['?']), 'a Signature reported after an edit of the buffer is not '
+                          'faithful to the text the Script was built from', {'order': order, 'versions': [SIG_VERSIONS[i] + SIG_TAIL for i in order],
+                                                                           'name': jutil.dec(e['name']), 'line': e['line'], 'col': e['col'],
+                                                                           'linecode': jutil.dec(e['linecode'])})
+    bad = [dict(traces[0][0], linecode=jutil.enc('something else\n'))]
+    n0 = ctx.coverage['traces_validated_against_impl']
+    bv = validate_traces('Trace_SigFaithful', 'Trace_SigFaithful.cfg', [bad], ctx, 'binding self-test (signature history)')
+    ctx.coverage['traces_validated_against_impl'] = n0
+    if bv[0]['accepted']:
+        raise MachineryError('binding self-test: signature with a foreign line code accepted')
+
+
 def run(ctx):
     quick = ctx.quick
     # VERIF_C17_REDUCED=1: thorough tier with smaller samples (for busy machines); stated in the evidence
@@ -944,6 +1027,7 @@ def run(ctx):
     if any(v['accepted'] for v in vs):
         raise MachineryError('binding self-test: corrupted trace accepted %s' % vs)
     ctx.coverage['binding_selftest'] = 'corrupted records rejected: %s' % [v['why'] for v in vs]
+    signature_histories(ctx)
     ctx.assumptions += [
         'identifier tokens = NAME tokens of CPython tokenize that are not keywords; binding tokens = ast Store/Del '
         'Name/Attribute, def/class names, args, import aliases, except-as (global/nonlocal declare, do not bind)',
